@@ -279,11 +279,30 @@ def _s3(ctx, rel):
                f"per index the body does {labs}: expected one append, and a yielded batch removed from the table on "
                f"the same path (else the index is yielded twice or lost)", rel, loop.lineno, sample=labs)
     # full batch is yielded exactly when the size is reached
-    tests = [n.test for n in ast.walk(loop) if isinstance(n, ast.If) and any(isinstance(x, ast.Yield) for s in n.body for x in ast.walk(s))]
-    oksz = len(tests) == 1 and isinstance(tests[0], ast.Compare) and isinstance(tests[0].ops[0], ast.Eq) \
-        and any("len(" in u(x) for x in (tests[0].left, tests[0].comparators[0]))
+    # (decided on expansions: a named `n = len(batch)` or a flipped comparison is the same test)
+    from sa.inline import Inliner
+    inl_it = Inliner(f.node, rd)
+    pm_loop = parent_map(f.node)
+    ylds = [x for x in ast.walk(loop) if isinstance(x, ast.Yield)]
+    oksz, shown = len(ylds) == 1, None
+    for y in ylds:
+        hit = False
+        for t, pol in guards_of(pm_loop, y):
+            while isinstance(t, ast.UnaryOp) and isinstance(t.op, ast.Not):
+                t, pol = t.operand, not pol
+            x = inl_it.expand(t)
+            if not (isinstance(x, ast.Compare) and len(x.ops) == 1 and any("len(" in u(z) for z in (x.left, x.comparators[0]))):
+                continue
+            shown = u(t) if pol else f"not ({u(t)})"
+            sides = [x.left, x.comparators[0]]
+            ln_ = [z for z in sides if isinstance(z, ast.Call) and call_name(z) == "len" and len(z.args) == 1
+                   and y.value is not None and u(z.args[0]) == u(inl_it.expand(y.value))]
+            sz_ = [z for z in sides if "bucket2size" in u(z) and "len(" not in u(z)]
+            eq = (isinstance(x.ops[0], ast.Eq) and pol) or (isinstance(x.ops[0], ast.NotEq) and not pol)
+            hit = hit or (eq and len(ln_) == 1 and len(sz_) == 1)
+        oksz = oksz and hit
     col.ob("G10", "S3", f"{where}::yield-when-full", oksz,
-           f"a bucket's batch is yielded under `{u(tests[0]) if tests else None}`, expected size == len(batch)", rel,
+           f"a bucket's batch is yielded under `{shown}`, expected size == len(batch)", rel,
            loop.lineno)
     # leftovers iff not drop_incomplete
     tail = [n for n in f.node.body[f.node.body.index(loop) + 1:]]
